@@ -443,3 +443,206 @@ Proof.
     + split; [reflexivity|].
       repeat match goal with |- context [match ?x with [] => _ | _ :: _ => _ end] => destruct x eqn:? end; cbn; auto.
 Qed.
+
+Lemma AInv_fresh S K c n : AInv S K c n -> ~ In (seq_succ (c_seq_send c)) (map fst (c_packs c)).
+Proof.
+  intros [[H1 H2 H3 H3' H4 H5 H6 H7] Hp].
+  rewrite H2, seq_succ_index by exact H1. unfold seq_of_index. assert (n + 1 =? 0 = false) as -> by lia.
+  intros Hin. apply in_map_iff in Hin as ([s t] & Hs & Hin). cbn in Hs.
+  rewrite Forall_forall in H5. destruct (H5 _ Hin) as (i & I1 & I2 & I3). cbn in I2, I3.
+  unfold purged in Hp. rewrite Forall_forall in Hp. pose proof (Hp _ Hin) as Hpu. cbn in Hpu.
+  apply (wire_neq_near i (n + 1)); [|congruence].
+  assert ((n - i) * S <= c_out_timeout c) by lia. unfold RING in *. nia.
+Qed.
+
+Lemma opt_list_In {A} (l : list (option A)) x : In (Some x) l -> In x (opt_list l).
+Proof.
+  induction l as [|a l IH]; intros H; [destruct H|]. destruct H as [->|H]; cbn.
+  - left. reflexivity.
+  - destruct a; [right|]; apply IH; exact H.
+Qed.
+
+Lemma In_opt_list {A} (l : list (option A)) x : In x (opt_list l) -> In (Some x) l.
+Proof.
+  induction l as [|a l IH]; intros H; [destruct H|]. cbn in H. destruct a.
+  - destruct H as [->|H]; [left; reflexivity|right; apply IH; exact H].
+  - right. apply IH. exact H.
+Qed.
+
+Lemma keys_dset {A} k (v : A) d x : In x (map fst d) -> In x (map fst (dset k v d)).
+Proof.
+  induction d as [|[k' v'] r IH]; cbn [dset map fst In]; intros H; [destruct H|].
+  destruct (k =? k') eqn:E; cbn [map fst In].
+  - destruct H as [H|H]; [left; lia|right; exact H].
+  - destruct H as [H|H]; [left; exact H|right; apply IH; exact H].
+Qed.
+
+Lemma key_dset_self {A} k (v : A) d : In k (map fst (dset k v d)).
+Proof.
+  induction d as [|[k' v'] r IH]; cbn [dset map fst In]; [left; reflexivity|].
+  destruct (k =? k'); cbn [map fst In]; [left; reflexivity|right; exact IH].
+Qed.
+
+Lemma build_impl_Custody K e S Ka c n now ka delay c' r :
+  NU c -> AInv S Ka c n -> Custody K c -> build_impl e c now ka delay = (c', r) -> Custody K c'.
+Proof.
+  intros HN HA HC E. pose proof (AInv_fresh _ _ _ _ HA) as Hnew.
+  destruct (build_impl_spec _ _ _ _ _ _ _ (NU_no_unknown _ HN) E) as (msgs & [B1 B2 B3 B4 B5 B6]).
+  destruct HC as [H|[(m & Hm & Hk)|(s' & ks & H1 & H2 & H3)]].
+  - left. unfold is_done. rewrite B4. exact H.
+  - destruct (B2 m Hm) as [Hq|Hsel]; [right; left; exists m; auto|].
+    right. right. destruct r as [[h ms]|]; [|destruct B6 as (-> & _); destruct Hsel].
+    destruct B6 as (_ & P & C).
+    assert (HK : In K (opt_list (map m_cb msgs))) by (apply opt_list_In; rewrite <- Hk; apply in_map; exact Hsel).
+    exists (seq_succ (c_seq_send c)), (opt_list (map m_cb msgs)).
+    rewrite C, P. destruct (opt_list (map m_cb msgs)) as [|k0 cbs] eqn:Ec; [destruct HK|].
+    split; [rewrite dget_dset, Z.eqb_refl; reflexivity|]. split; [exact HK|apply key_dset_self].
+  - right. right. exists s', ks.
+    assert (Hne : s' <> seq_succ (c_seq_send c)) by (intros ->; exact (Hnew H3)).
+    destruct r as [[h ms]|].
+    + destruct B6 as (_ & P & C). rewrite C, P.
+      split; [|split; [exact H2|apply keys_dset; exact H3]].
+      destruct (opt_list (map m_cb msgs)); [exact H1|]. rewrite dget_dset. assert (s' =? seq_succ (c_seq_send c) = false) as -> by lia. exact H1.
+    + destruct B6 as (_ & C & P). rewrite C, P. auto.
+Qed.
+
+Lemma stamp_msg_ok now m : msg_ok m -> msg_ok (stamp now m).
+Proof. intros H. exact H. Qed.
+
+Lemma build_impl_NU e c now ka delay c' r : NU c -> build_impl e c now ka delay = (c', r) -> NU c'.
+Proof.
+  intros HN E. destruct (build_impl_spec _ _ _ _ _ _ _ (NU_no_unknown _ HN) E) as (msgs & [B1 B2 B3 B4 B5 B6]).
+  destruct HN as [A B D]. rewrite Forall_forall in A, B.
+  assert (Hmsgs : forall m, In m msgs -> msg_ok m).
+  { intros m Hm. destruct (B1 m Hm) as [H|H]; [apply A; exact H|].
+    apply in_map_iff in H as (x & <- & Hx). exact (B _ Hx). }
+  constructor.
+  - apply Forall_forall. intros m Hm. apply A. apply B3. exact Hm.
+  - apply Forall_forall. intros x Hx. destruct (B5 x Hx) as [H|(m & H1 & H2)]; [exact (B _ H)|].
+    rewrite H2. apply stamp_msg_ok. apply Hmsgs. exact H1.
+  - destruct r as [[h ms]|]; [|destruct B6 as (_ & -> & _); exact D].
+    destruct B6 as (_ & _ & ->). destruct (opt_list (map m_cb msgs)) as [|k0 cbs] eqn:Ec; [exact D|].
+    apply Forall_dset; [exact D|]. cbn. apply Forall_forall. intros k Hk. rewrite <- Ec in Hk.
+    apply In_opt_list in Hk. apply in_map_iff in Hk as (m & Hk & Hm). exact (proj2 (Hmsgs m Hm) k Hk).
+Qed.
+
+Lemma build_packet_CN K e S Ka c n now c' r :
+  NU c -> AInv S Ka c n -> Custody K c -> build_packet e c now = (c', r) -> Custody K c' /\ NU c'.
+Proof.
+  intros HN HA HC E. unfold build_packet in E. destruct (_ <? _); [injection E as <- <-; auto|].
+  destruct (build_impl e c now _ _) as [c1 r1] eqn:E1.
+  pose proof (build_impl_Custody K _ _ _ _ _ _ _ _ _ _ HN HA HC E1) as C1. pose proof (build_impl_NU _ _ _ _ _ _ _ HN E1) as N1.
+  destruct r1; injection E as <- <-; (split; [|eapply NU_upd; [| | |exact N1]; reflexivity]); [|exact C1].
+  eapply Custody_same; [| | | |exact C1]; cbn; auto.
+Qed.
+
+(* ---------- every event ---------- *)
+Definition cust_rel (a b : conn) : Prop :=
+  (forall m, In m (c_outgoing a) -> In m (c_outgoing b)) /\ c_done b = c_done a /\ c_pcbs b = c_pcbs a /\ c_packs b = c_packs a.
+
+Lemma cust_rel_Custody K a b : cust_rel a b -> Custody K a -> Custody K b.
+Proof. intros (O & D & P & A). apply Custody_same; assumption. Qed.
+
+Lemma recv_msgs_cust ms c now orcs c' o : recv_msgs c now ms orcs = (c', o) -> cust_rel c c'.
+Proof.
+  apply (recv_msgs_rel cust_rel).
+  - intros a. repeat split; auto.
+  - intros a b d (A1 & A2 & A3 & A4) (B1 & B2 & B3 & B4). repeat split; auto; congruence.
+  - intros a bf. repeat split; auto.
+  - intros a s p. repeat split; auto.
+  - intros a n s p a' o' Ef. unfold recv_fragment in Ef. destruct (_ <? _)%nat; [injection Ef as <- <-; repeat split; auto|].
+    injection Ef as <- <-. destruct (fr_complete _); repeat split; auto.
+  - intros a. repeat split; auto.
+  - intros a ty oo a' os Eh. unfold recv_handshake in Eh.
+    destruct ty, (c_server a); try (injection Eh as <- <-; repeat split; auto).
+    + destruct (negb _); [injection Eh as <- <-; repeat split; auto|].
+      destruct (negb _); injection Eh as <- <-; [repeat split; auto|].
+      unfold send_type. repeat split; cbn; auto. intros m Hm. apply in_or_app. left. exact Hm.
+    + destruct (o_parse oo =? 6); [injection Eh as <- <-; repeat split; auto|].
+      destruct (negb _); injection Eh as <- <-; [repeat split; auto|].
+      unfold send_type. repeat split; cbn; auto. intros m Hm. apply in_or_app. left. exact Hm.
+    + destruct (negb _); [injection Eh as <- <-; repeat split; auto|].
+      destruct (o_temp_token oo) as [t|]; [|injection Eh as <- <-; repeat split; auto].
+      destruct (t =? o_token oo); injection Eh as <- <-; repeat split; auto.
+Qed.
+
+Lemma recv_CN K c now d orcs c' o : rid_of K <> -1 -> NU c -> Custody K c -> recv c now d orcs = (c', o) -> Custody K c' /\ NU c'.
+Proof.
+  unfold recv. intros Hr HN HC E.
+  assert (Hd : forall c1, c_outgoing c1 = c_outgoing c -> c_done c1 = c_done c -> c_pcbs c1 = c_pcbs c -> c_packs c1 = c_packs c ->
+                          c_pretry_msg c1 = c_pretry_msg c -> Custody K c1 /\ NU c1).
+  { intros c1 O D P A M. split; [eapply Custody_same; [| | | |exact HC]; auto; intros m; rewrite O; auto|eapply NU_upd; [| | |exact HN]; auto]. }
+  destruct (keyless_refuses c (d_hdr d)); [injection E as <- <-; apply Hd; reflexivity|].
+  destruct (open_dgram (c_key c) d) as [ms|]; [|injection E as <- <-; apply Hd; reflexivity].
+  destruct (bf_insert (c_bf_pkt c) _) as [bf|]; [|injection E as <- <-; apply Hd; reflexivity].
+  match type of E with context [handle_ack_bits ?c0 _] => set (cc := c0) in E end.
+  destruct (Hd cc) as [Ccc Ncc]; try reflexivity.
+  destruct (handle_ack_bits cc (d_hdr d)) as [c1 o1] eqn:E1.
+  destruct (recv_msgs c1 now ms orcs) as [c2 o2] eqn:E2. injection E as <- <-.
+  unfold handle_ack_bits in E1.
+  pose proof (ack_loop_Custody K _ _ _ _ _ Hr Ccc E1) as C1. pose proof (ack_loop_NU _ _ _ _ _ Ncc E1) as N1.
+  split; [eapply cust_rel_Custody; [eapply recv_msgs_cust; exact E2|exact C1]|eapply recv_msgs_NU; eassumption].
+Qed.
+
+Definition W (S Ka : Z) (c : conn) : Prop := NU c /\ exists n, AInv S Ka c n.
+
+Theorem step_Custody e S Ka K c x c' o :
+  rid_of K <> -1 -> ev_open x -> W S Ka c -> Custody K c -> step e c x = (c', o) -> W S Ka c' /\ Custody K c'.
+Proof.
+  intros Hr Hop [HN [n HA]] HC E.
+  destruct (step_AInv _ _ _ _ _ _ _ _ Hop HA E) as (n' & HA').
+  assert (Hsame : forall c1, c_outgoing c1 = c_outgoing c -> c_done c1 = c_done c -> c_pcbs c1 = c_pcbs c -> c_packs c1 = c_packs c ->
+                          c_pretry_msg c1 = c_pretry_msg c -> Custody K c1 /\ NU c1).
+  { intros c1 O D P A M. split; [eapply Custody_same; [| | | |exact HC]; auto; intros m; rewrite O; auto|eapply NU_upd; [| | |exact HN]; auto]. }
+  assert (Hgoal : Custody K c' /\ NU c' -> W S Ka c' /\ Custody K c') by (intros [A B]; split; [split; [exact B|exists n'; exact HA']|exact A]).
+  apply Hgoal. clear Hgoal.
+  destruct x; cbn [step] in E; cbn [ev_open] in Hop.
+  - split; [eapply send_Custody; eassumption|eapply send_NU; eassumption].
+  - unfold client_tick in E.
+    destruct (client_update c now) as [c0 o0] eqn:E0.
+    assert (H0 : (Custody K c0 /\ NU c0) /\ AInv S Ka c0 n).
+    { split.
+      - unfold client_update in E0.
+        destruct (_ && (now >? _)); destruct (_ && (_ >? c_temp_timeout _)); injection E0 as <- <-; apply Hsame; reflexivity.
+      - destruct HA as [H0 Hp]. pose proof (client_update_ack _ _ _ _ E0) as B. apply client_update_frame in E0 as (A & _).
+        split; [eapply AInv0_same; eassumption|eapply purged_same; eassumption]. }
+    destruct H0 as [[C0 N0] A0].
+    destruct (status_eqb (c_status c0) DROPPED); [injection E as <- <-; auto|].
+    match type of E with context [match ?y with (_, _) => _ end] => destruct y as [c1 o1] eqn:E1 end.
+    assert (H1 : (Custody K c1 /\ NU c1) /\ AInv S Ka c1 n).
+    { destruct r as [|er|d orcs]; try (injection E1 as <- <-; auto).
+      destruct (recv c0 now d orcs) as [c'' o''] eqn:Er. injection E1 as <- <-.
+      split; [eapply recv_CN; eassumption|eapply recv_AInv; eassumption]. }
+    destruct H1 as [[C1 N1] A1].
+    destruct (raised o1); [injection E as <- <-; auto|].
+    destruct (_ >? _); [|injection E as <- <-; auto].
+    destruct (build_packet e c1 now) as [c2 pk] eqn:E2.
+    destruct (check_timeout false c2 now) as [c3 o3] eqn:E3. injection E as <- <-.
+    destruct (build_packet_CN K _ _ _ _ _ _ _ _ N1 A1 C1 E2) as [C2 N2].
+    unfold check_timeout in E3. split; [eapply timeout_loop_Custody; eassumption|eapply timeout_loop_NU; eassumption].
+  - unfold server_tick in E. destruct (_ >? _); [|injection E as <- <-; auto].
+    destruct (build_packet e c now) as [c1 pk] eqn:E1.
+    destruct (check_timeout true c1 now) as [c2 o2] eqn:E2. injection E as <- <-.
+    destruct (build_packet_CN K _ _ _ _ _ _ _ _ HN HA HC E1) as [C1 N1].
+    unfold check_timeout in E2. split; [eapply timeout_loop_Custody; eassumption|eapply timeout_loop_NU; eassumption].
+  - eapply recv_CN; eassumption.
+  - destruct Hop.
+  - injection E as <- <-. destruct Hop as [->| ->]; apply Hsame; reflexivity.
+  - injection E as <- <-. unfold client_hello. split.
+    + eapply Custody_same; [| | | |exact HC]; unfold send_type; cbn; auto. intros m Hm. apply in_or_app. left. exact Hm.
+    + eapply NU_upd; [| | |apply (send_type_NU c CLIENT_HELLO hello RNone IHello); [discriminate|exact HN]]; reflexivity.
+  - injection E as <- <-. apply Hsame; reflexivity.
+  - injection E as <- <-. apply Hsame; reflexivity.
+Qed.
+
+Theorem run_Custody e S Ka K xs : forall c c' oss,
+  rid_of K <> -1 -> all_open xs -> W S Ka c -> Custody K c -> run e c xs = (c', oss) -> W S Ka c' /\ Custody K c'.
+Proof.
+  induction xs as [|x r IH]; intros c c' oss Hr Hop HW HC E; cbn [run] in E.
+  - injection E as <- <-. auto.
+  - destruct Hop as [Hx Hr']. destruct (step e c x) as [c1 o] eqn:E1. destruct (run e c1 r) as [c2 os] eqn:E2.
+    injection E as <- <-. destruct (step_Custody _ _ _ _ _ _ _ _ Hr Hx HW HC E1) as [W1 C1]. eapply IH; eassumption.
+Qed.
+
+Lemma W_conn0 S b : 0 < S -> S <= 256 -> TICKS < (RING - 1) * S -> W S 0 (conn0 b).
+Proof. intros. split; [constructor; constructor|exists 0; apply AInv_conn0; assumption]. Qed.
